@@ -22,7 +22,8 @@ def case_rng(seed, shard, i):
 
 
 def solve_kwargs(cfg):
-    kw = {"wrapper": cfg.get("wrapper", "cvxpy"), "return_primal_or_dual": cfg.get("mode", "dual"),
+    kw = {"wrapper": "mosek" if cfg.get("wrapper") == "mosek_absent" else cfg.get("wrapper", "cvxpy"),
+          "return_primal_or_dual": cfg.get("mode", "dual"),
           "verbose": cfg.get("verbose", 0)}
     if cfg.get("dimred"):
         kw["dimension_reduction_heuristic"] = cfg["dimred"]
@@ -33,6 +34,27 @@ def solve_kwargs(cfg):
     if cfg.get("solver"):
         kw["solver"] = cfg["solver"]
     return kw
+
+
+@contextlib.contextmanager
+def package_absent(name):
+    """An environment in which the package `name` is not installed (the library then documents a switch to cvxpy):
+    importlib.util.find_spec answers None for it for the duration of the solve."""
+    if name is None:
+        yield
+        return
+    import importlib.util as iu
+    orig = iu.find_spec
+
+    def find_spec(n, *a, **kw):
+        if n == name or n.startswith(name + "."):
+            return None
+        return orig(n, *a, **kw)
+    iu.find_spec = find_spec
+    try:
+        yield
+    finally:
+        iu.find_spec = orig
 
 
 def random_config(rng, allow_dimred=True, allow_scs=True):
@@ -76,11 +98,17 @@ def run_case(prog, cfg, pre_solve=None, quiet=True):
         return c
     if pre_solve is not None:
         pre_solve(m)
-    with contextlib.redirect_stdout(buf):
+    with contextlib.redirect_stdout(buf), package_absent("mosek" if cfg.get("wrapper") == "mosek_absent" else None):
         out = m.do_solve(solve_kwargs(cfg))
     c.stdout = buf.getvalue()
     c.outcome = out
     c.rec = bd.records[n0] if len(bd.records) > n0 else None
+    if c.rec is not None and not c.rec.get("inner") and len(bd.records) > n0 + 1:
+        # solve() re-entered itself (e.g. a fallback implemented as a recursive call): the record that holds the solver
+        # traffic is the innermost one; it is judged against the options the USER passed
+        with_inner = [r for r in bd.records[n0:] if r.get("inner")]
+        if with_inner:
+            c.rec = with_inner[-1]
     if c.rec is not None:
         c.status = backend_status(c.rec)
         sts = [str(x["status"]).lower() for x in c.rec["inner"]]
